@@ -130,6 +130,9 @@ func (e Env) rhs(r Rhs) (val.V, bool) {
 		return v, ok
 	case "path":
 		v, st := e.Resolve(r.Path)
+		if st != rFound && st != rInvalid && e.MissingAsNull {
+			return val.Null(), true
+		}
 		return v, st == rFound
 	case "plus", "minus":
 		a, ok1 := e.rhs(r.A[0])
@@ -235,7 +238,12 @@ func setAt(v val.V, p Path, nv val.V) (val.V, bool) {
 // Apply returns the accepted post-update items (usually one; two when DELETE empties a set).
 // ok=false means the update must be rejected and the item left unchanged.
 func (u *Update) Apply(item val.Item, names map[string]string, values map[string]val.V) ([]val.Item, bool) {
-	e := Env{Item: item, Names: names, Values: values}
+	return u.ApplyEnv(Env{Item: item, Names: names, Values: values})
+}
+
+// ApplyEnv is Apply with an explicit environment (used to evaluate defect models).
+func (u *Update) ApplyEnv(e Env) ([]val.Item, bool) {
+	item, values := e.Item, e.Values
 	work := item.Clone()
 	if work == nil {
 		work = val.Item{}
@@ -271,7 +279,7 @@ func (u *Update) Apply(item val.Item, names map[string]string, values map[string
 			case rInvalid, rMissingOrE:
 				return nil, false
 			case rMissing:
-				if v.T != "N" && v.T != "SS" && v.T != "NS" && v.T != "BS" {
+				if v.T != "N" && v.T != "SS" && v.T != "NS" && v.T != "BS" && !e.LenientAdd {
 					return nil, false
 				}
 				nr, ok := setAt(root(), p, v.Clone())
@@ -292,6 +300,10 @@ func (u *Update) Apply(item val.Item, names map[string]string, values map[string
 				nv = val.N(x.Add(y).Plain())
 			case cur.T == v.T && (cur.T == "SS" || cur.T == "NS" || cur.T == "BS"):
 				nv = setUnion(cur, v)
+			case e.LenientAdd && (cur.T == "SS" && v.T == "S" || cur.T == "NS" && v.T == "N"):
+				nv = setUnion(cur, val.V{T: cur.T, SS: []string{v.S}})
+			case e.LenientAdd && cur.T == "BS" && v.T == "B":
+				nv = setUnion(cur, val.V{T: "BS", BS: [][]byte{v.B}})
 			default:
 				return nil, false
 			}
